@@ -53,15 +53,19 @@ long xv_ctl_z;
 
 /* xpoll fd registrations: reg ids are 0..XV_CTL_REGS-1 (assumption: the real table never grows beyond that) */
 #define XV_CTL_REGS 4096
-struct xv_ctl_ep_s {
-    _Bool live[XV_CTL_REGS];   /* registration id exists                       */
-    int ev[XV_CTL_REGS];       /* its epoll event mask                         */
-    int fd[XV_CTL_REGS];       /* its descriptor                               */
-};
-struct xv_ctl_ep_s xv_ctl_ep;
+/* two heap byte arrays (made by xv_ctl_ghost_havoc, arbitrary content) rather than static arrays: CBMC bit-blasts a static
+ * int[4096] and copies all of it at every update at a symbolic index (accept_client did not finish in 10 minutes) */
+_Bool *xv_ctl_live;            /* [XV_CTL_REGS] registration id exists   */
+int *xv_ctl_ev;                /* [XV_CTL_REGS] its epoll event mask     */
+#define XV_CTL_EP_OBJS __CPROVER_object_whole(xv_ctl_live), __CPROVER_object_whole(xv_ctl_ev)
 struct xpoll *xv_ctl_xpoll;    /* ghost constant: the xpoll instance of the socket owning the ctl */
 long xv_ctl_ep_ops;            /* number of xpoll_fd_reg_add/mod/del calls (each may touch the epoll set) */
 int xv_ctl_reg;                /* ghost index (never assigned): an ARBITRARY registration id */
+
+int xv_ctl_ci;                 /* ghost constant: index of the client a per-client function is called for */
+
+/* ut_is_readable */
+long xv_ctl_readable_calls; _Bool xv_ctl_readable;  /* count, last answer */
 
 /* descriptors */
 long xv_ctl_close_calls; int xv_ctl_closed_fd;     /* ut_close: count, last fd  */
@@ -70,6 +74,7 @@ long xv_ctl_fds_made;                              /* socket()/accept4() success
 /* recv(2) */
 long xv_ctl_recv_calls; int xv_ctl_recv_fd; long xv_ctl_recv_rc; int xv_ctl_recv_errno;
 int xv_ctl_req_type;           /* type field of the datagram received (valid when recv_rc >= 4) */
+_Bool xv_ctl_req_cstr, xv_ctl_req_key; /* full-size datagram: its attr_name[64] holds a terminated string / the string "tls.key" */
 
 /* send(2) */
 long xv_ctl_send_calls; int xv_ctl_send_fd; size_t xv_ctl_send_len; long xv_ctl_send_rc; int xv_ctl_send_errno;
@@ -111,13 +116,17 @@ char nondet_char(void);
 static inline void xv_ctl_ghost_havoc(void)
 {
     xv_ctl_z = nondet_long();
-    struct xv_ctl_ep_s nd;      /* uninitialised: arbitrary */
-    xv_ctl_ep = nd;
+    __CPROVER_assume(xv_ctl_z >= 0);
+    __CPROVER_assume(xv_ctl_z <= 0);
+    xv_ctl_live = malloc(XV_CTL_REGS * sizeof(_Bool) + (size_t)xv_ctl_z);   /* content arbitrary */
+    xv_ctl_ev = malloc(XV_CTL_REGS * sizeof(int) + (size_t)xv_ctl_z);
+    __CPROVER_assume(xv_ctl_live != NULL && xv_ctl_ev != NULL);
     struct xpoll *ndp; xv_ctl_xpoll = ndp;
     xv_ctl_ep_ops = nondet_long(); xv_ctl_reg = nondet_int();
     xv_ctl_close_calls = nondet_long(); xv_ctl_closed_fd = nondet_int(); xv_ctl_fds_made = nondet_long();
     xv_ctl_recv_calls = nondet_long(); xv_ctl_recv_fd = nondet_int(); xv_ctl_recv_rc = nondet_long(); xv_ctl_recv_errno = nondet_int();
-    xv_ctl_req_type = nondet_int();
+    xv_ctl_req_type = nondet_int(); xv_ctl_req_cstr = nondet_bool(); xv_ctl_req_key = nondet_bool();
+    xv_ctl_ci = nondet_int(); xv_ctl_readable_calls = nondet_long(); xv_ctl_readable = nondet_bool();
     xv_ctl_send_calls = nondet_long(); xv_ctl_send_fd = nondet_int(); xv_ctl_send_len = nondet_size_t(); xv_ctl_send_rc = nondet_long();
     xv_ctl_send_errno = nondet_int(); const void *ndb; xv_ctl_send_buf = ndb; xv_ctl_send_j = nondet_uchar(); xv_ctl_j = nondet_size_t();
     xv_ctl_accept_rc = nondet_int();
@@ -230,8 +239,8 @@ int xpoll_fd_reg_add(struct xpoll *xpoll, int fd, int event)
     XV_ASSERT(xpoll == xv_ctl_xpoll, "xpoll_fd_reg_add: xpoll instance of the owning socket");
     XV_ASSERT(fd >= 0, "xpoll_fd_reg_add: fd >= 0 (ut_assert in xpoll.c)");
     int id = nondet_int();
-    __CPROVER_assume(id >= 0 && id < XV_CTL_REGS && !xv_ctl_ep.live[id]);
-    xv_ctl_ep.live[id] = 1; xv_ctl_ep.ev[id] = event; xv_ctl_ep.fd[id] = fd;
+    __CPROVER_assume(id >= 0 && id < XV_CTL_REGS && !xv_ctl_live[id]);
+    xv_ctl_live[id] = 1; xv_ctl_ev[id] = event;
     xv_ctl_ep_ops++;
     if (nondet_bool()) xv_errno = nondet_int();
     return id;
@@ -239,23 +248,23 @@ int xpoll_fd_reg_add(struct xpoll *xpoll, int fd, int event)
 void xpoll_fd_reg_mod(struct xpoll *xpoll, int reg_id, int event)
 {
     XV_ASSERT(xpoll == xv_ctl_xpoll, "xpoll_fd_reg_mod: xpoll instance of the owning socket");
-    XV_ASSERT(reg_id >= 0 && reg_id < XV_CTL_REGS && xv_ctl_ep.live[reg_id], "xpoll_fd_reg_mod: registration id valid (ut_assert in xpoll.c)");
-    xv_ctl_ep.ev[reg_id] = event;
+    XV_ASSERT(reg_id >= 0 && reg_id < XV_CTL_REGS && xv_ctl_live[reg_id], "xpoll_fd_reg_mod: registration id valid (ut_assert in xpoll.c)");
+    xv_ctl_ev[reg_id] = event;
     xv_ctl_ep_ops++;
     if (nondet_bool()) xv_errno = nondet_int();
 }
 void xpoll_fd_reg_del(struct xpoll *xpoll, int reg_id)
 {
     XV_ASSERT(xpoll == xv_ctl_xpoll, "xpoll_fd_reg_del: xpoll instance of the owning socket");
-    XV_ASSERT(reg_id >= 0 && reg_id < XV_CTL_REGS && xv_ctl_ep.live[reg_id], "xpoll_fd_reg_del: registration id valid (ut_assert in xpoll.c)");
-    xv_ctl_ep.live[reg_id] = 0;
+    XV_ASSERT(reg_id >= 0 && reg_id < XV_CTL_REGS && xv_ctl_live[reg_id], "xpoll_fd_reg_del: registration id valid (ut_assert in xpoll.c)");
+    xv_ctl_live[reg_id] = 0;
     xv_ctl_ep_ops++;
     if (nondet_bool()) xv_errno = nondet_int();
 }
 
 /* ------------------------------------------------------------------ util (common/util.c), TRUSTED(util) */
 /* poll(2) with timeout 0 under UT_SAVE_ERRNO: any answer, errno untouched */
-bool ut_is_readable(int fd) { return nondet_bool(); }
+bool ut_is_readable(int fd) { xv_ctl_readable_calls++; xv_ctl_readable = nondet_bool(); return xv_ctl_readable; }
 /* close(2) under UT_PROTECT_ERRNO */
 void ut_close(int fd) { xv_ctl_close_calls++; xv_ctl_closed_fd = fd; }
 /* accept4(2): a new descriptor or -1 with any errno (EWOULDBLOCK == EAGAIN on Linux) */
@@ -285,6 +294,11 @@ ssize_t recv(int fd, void *buf, size_t len, int flags)
         __CPROVER_havoc_slice(buf, n);
     if (n >= sizeof(int))
         xv_ctl_req_type = *(const int *)buf;
+    if (n == sizeof(struct ctl_proto_msg)) {    /* ghost record of the wire name (ctl.c is the only caller of recv in this unit) */
+        const char *wire_name = ((const struct ctl_proto_msg *)buf)->get_attr_req.attr_name;
+        xv_ctl_req_cstr = XV_CSTR64(wire_name);
+        xv_ctl_req_key = XV_IS_TLS_KEY(wire_name);
+    }
     xv_ctl_recv_rc = (long)n;
     return (ssize_t)n;
 }
@@ -384,28 +398,25 @@ void ctl_derive_path(const char *ctl_dir, pid_t creator_pid, int64_t sock_ref, c
  * (cb == add_attr, cb_data == the get_all_attr_cfm being filled, attrs_len == 0 on entry -- asserted). */
 #define XV_CTL_ALL_GHOSTS xv_errno, xv_ctl_all_calls, xv_ctl_all_n, xv_ctl_i_type, xv_ctl_i_len, xv_ctl_i_val_mc, xv_ctl_i_name_j, xv_ctl_i_namelen, \
                           xv_ctl_g_len0, xv_ctl_g_namelen, xv_ctl_g_len
-#ifndef XV_DBG_LEVEL
-#define XV_DBG_LEVEL 3
-#endif
-#if XV_DBG_LEVEL == 0
-#define XV_CTL_ALL_ENTRY_I(cfm) 1
-#elif XV_DBG_LEVEL == 1
-#define XV_CTL_ALL_ENTRY_I(cfm) (xv_ctl_i < (cfm)->attrs_len ==> ( \
-        (int)(cfm)->attrs[xv_ctl_i].value_type == xv_ctl_i_type && (cfm)->attrs[xv_ctl_i].value_len == xv_ctl_i_len && \
-        xv_ctl_i_len <= CTL_ATTR_VALUE_MAX && xv_ctl_i_namelen < XCM_ATTR_NAME_MAX))
-#elif XV_DBG_LEVEL == 2
-#define XV_CTL_ALL_ENTRY_I(cfm) (xv_ctl_i < (cfm)->attrs_len ==> ( \
-        (int)(cfm)->attrs[xv_ctl_i].value_type == xv_ctl_i_type && (cfm)->attrs[xv_ctl_i].value_len == xv_ctl_i_len && \
-        xv_ctl_i_len <= CTL_ATTR_VALUE_MAX && xv_ctl_i_namelen < XCM_ATTR_NAME_MAX && \
-        (xv_mc < xv_ctl_i_len ==> (cfm)->attrs[xv_ctl_i].any_value[xv_mc] == xv_ctl_i_val_mc)))
+/* what is stated about the xv_ctl_i-th entry of the reply.  Stating everything at once costs 3.5 min of solver time
+ * (each fact is a read at a symbolic offset of the 38 KB reply, and the array theory's cost grows with reads x updates),
+ * so job ctl.process_get_all_attr runs as three variants, each tracking one aspect (-DXV_CTL_TRACK=1|2|3); without
+ * the macro all three are tracked. */
+#define XV_CTL_ENT_SHAPE(cfm) ((int)(cfm)->attrs[xv_ctl_i].value_type == xv_ctl_i_type && (cfm)->attrs[xv_ctl_i].value_len == xv_ctl_i_len && \
+        xv_ctl_i_len <= CTL_ATTR_VALUE_MAX && xv_ctl_i_namelen < XCM_ATTR_NAME_MAX)
+#define XV_CTL_ENT_VALUE(cfm) (xv_ctl_i_len <= CTL_ATTR_VALUE_MAX && (xv_mc < xv_ctl_i_len ==> (cfm)->attrs[xv_ctl_i].any_value[xv_mc] == xv_ctl_i_val_mc))
+#define XV_CTL_ENT_NAME(cfm) (xv_ctl_i_namelen < XCM_ATTR_NAME_MAX && (cfm)->attrs[xv_ctl_i].name[xv_ctl_i_namelen] == 0 && \
+        (xv_ctl_j <= xv_ctl_i_namelen ==> (cfm)->attrs[xv_ctl_i].name[xv_ctl_j] == xv_ctl_i_name_j))
+#if !defined(XV_CTL_TRACK)
+#define XV_CTL_ENT(cfm) (XV_CTL_ENT_SHAPE(cfm) && XV_CTL_ENT_VALUE(cfm) && XV_CTL_ENT_NAME(cfm))
+#elif XV_CTL_TRACK == 1
+#define XV_CTL_ENT(cfm) XV_CTL_ENT_SHAPE(cfm)
+#elif XV_CTL_TRACK == 2
+#define XV_CTL_ENT(cfm) XV_CTL_ENT_VALUE(cfm)
 #else
-#define XV_CTL_ALL_ENTRY_I(cfm) (xv_ctl_i < (cfm)->attrs_len ==> ( \
-        (int)(cfm)->attrs[xv_ctl_i].value_type == xv_ctl_i_type && (cfm)->attrs[xv_ctl_i].value_len == xv_ctl_i_len && \
-        xv_ctl_i_len <= CTL_ATTR_VALUE_MAX && xv_ctl_i_namelen < XCM_ATTR_NAME_MAX && \
-        (xv_mc < xv_ctl_i_len ==> (cfm)->attrs[xv_ctl_i].any_value[xv_mc] == xv_ctl_i_val_mc) && \
-        (xv_ctl_j <= xv_ctl_i_namelen ==> (cfm)->attrs[xv_ctl_i].name[xv_ctl_j] == xv_ctl_i_name_j) && \
-        (cfm)->attrs[xv_ctl_i].name[xv_ctl_i_namelen] == 0))
+#define XV_CTL_ENT(cfm) XV_CTL_ENT_NAME(cfm)
 #endif
+#define XV_CTL_ALL_ENTRY_I(cfm) (xv_ctl_i < (cfm)->attrs_len ==> XV_CTL_ENT(cfm))
 /* the generated pointer/bounds checks are switched off inside this stub (as in contract text, contracts/begin.h): its
  * accesses are to its own buffers and, in the invariant, to the reply object whose validity the caller's contract states */
 #include "contracts/begin.h"
